@@ -490,23 +490,67 @@ type shaApp struct {
 	n   int
 	arg *Term
 	res *Term
+	in  []Value
 }
 
-func (ex *Exec) shaRecord(n int, arg, res *Term) {
+func (ex *Exec) shaRecord(n int, arg, res *Term, in []Value) {
 	apps, _ := ex.side["shaApps"].([]shaApp)
 	for _, p := range apps {
 		if p.n == n && p.arg.S == arg.S {
 			return
 		}
 	}
+	// digests of inputs of different lengths differ: one tag per application
+	// (linear) instead of pairwise disequalities
+	tag := UF("shalen", []Sort{SBV(256)}, SBV(32))
+	ex.addPC(Eq(App(tag, SBV(32), res), BVConst(uint64(n), 32)))
 	for _, p := range apps {
 		if p.n != n {
-			ex.addPC(Not(Eq(p.res, res)))
+			continue
 		} else {
-			ex.addPC(Implies(Eq(p.res, res), Eq(p.arg, arg)))
+			// collision freeness; the argument equality is built piecewise so
+			// that shared prefixes/suffixes are not bit-blasted again
+			ex.addPC(Implies(Eq(p.res, res), ex.bytesEqTerm(p.in, in)))
 		}
 	}
-	ex.side["shaApps"] = append(apps, shaApp{n, arg, res})
+	cp := make([]Value, len(in))
+	copy(cp, in)
+	ex.side["shaApps"] = append(apps, shaApp{n, arg, res, cp})
+}
+
+// bytesEqTerm: equality of two equally long explicit byte strings as a
+// conjunction over the maximal runs of positions that are not syntactically
+// identical; literal mismatches make it false at once.
+func (ex *Exec) bytesEqTerm(a, b []Value) *Term {
+	acc := TTrue
+	i := 0
+	for i < len(a) {
+		x, y := a[i].(Int), b[i].(Int)
+		if (x.T == nil && y.T == nil && x.C == y.C) || (x.T != nil && y.T != nil && x.T.S == y.T.S) {
+			i++
+			continue
+		}
+		if x.T == nil && y.T == nil {
+			return TFalse
+		}
+		j := i
+		for j < len(a) {
+			x, y := a[j].(Int), b[j].(Int)
+			if x.T == nil && y.T == nil {
+				if x.C != y.C {
+					return TFalse
+				}
+				break
+			}
+			if x.T != nil && y.T != nil && x.T.S == y.T.S {
+				break
+			}
+			j++
+		}
+		acc = And(acc, Eq(bvOfBytes(a[i:j]), bvOfBytes(b[i:j])))
+		i = j
+	}
+	return acc
 }
 
 func (ex *Exec) shaTerm(n int, arg *Term) *Term {
@@ -527,7 +571,7 @@ func (ex *Exec) sha256Of(in []Value) []Value {
 		res := ex.shaTerm(len(bs), arg)
 		lit := &Term{"#x" + hex.EncodeToString(d[:]), SBV(256)}
 		ex.addPC(Eq(res, lit))
-		ex.shaRecord(len(bs), arg, res)
+		ex.shaRecord(len(bs), arg, res, bytesSlice(bs))
 	}
 	if bs, ok := concBytes(in); ok {
 		d := sha256.Sum256(bs)
@@ -550,7 +594,7 @@ func (ex *Exec) sha256Of(in []Value) []Value {
 	}
 	arg := bvOfBytes(in)
 	res := ex.shaTerm(len(in), arg)
-	ex.shaRecord(len(in), arg, res)
+	ex.shaRecord(len(in), arg, res, in)
 	out := make([]Value, 32)
 	for i := 0; i < 32; i++ {
 		hi := 255 - 8*i
